@@ -75,26 +75,22 @@ func main() {
 		var rp struct {
 			Property   string    `json:"property"`
 			Class      string    `json:"class"`
-			EvalModule string    `json:"eval_module"`
-			Case       core.Case `json:"case"`
+			EvalModule string            `json:"eval_module"`
+			EvalEnv    map[string]string `json:"eval_env"`
+			Isolated   bool              `json:"isolated"`
+			Case       core.Case         `json:"case"`
 		}
 		if err := json.Unmarshal(b, &rp); err != nil {
 			fmt.Fprintln(os.Stderr, err)
 			exit(2)
 		}
-		mk := plans.Registry[rp.Property]
-		p, err := mk("quick", 1)
-		if err != nil {
-			fmt.Fprintln(os.Stderr, err)
-			exit(2)
-		}
 		var recs []core.Rec
-		if p.Isolated {
-			recs, _ = core.RunIsolated([]core.Case{rp.Case}, p.CaseTimeout)
+		if rp.Isolated {
+			recs, _ = core.RunIsolated([]core.Case{rp.Case}, 0)
 		} else {
 			recs = core.ExecCase(rp.Case)
 		}
-		mm, _, err := core.EvalRecords(rp.EvalModule, p.EvalEnv, recs)
+		mm, _, err := core.EvalRecords(rp.EvalModule, rp.EvalEnv, recs)
 		if err != nil {
 			fmt.Fprintln(os.Stderr, err)
 			exit(2)
